@@ -30,9 +30,13 @@ func runFlow(c *Ctx) {
 	for d := 0; d <= maxd; d++ {
 		n := 2*d + 3
 		vec := make([]int, n)
+		base := 4
+		if d <= 2 || (c.Thorough() && d <= 3) {
+			base = 5 // also: the hook dies of a runtime error
+		}
 		total := 1
 		for i := 0; i < n; i++ {
-			total *= 4
+			total *= base
 		}
 		pols := 3
 		if d > 2 {
@@ -41,8 +45,8 @@ func runFlow(c *Ctx) {
 		for v := 0; v < total; v++ {
 			x := v
 			for i := 0; i < n; i++ {
-				vec[i] = x & 3
-				x >>= 2
+				vec[i] = x % base
+				x /= base
 			}
 			if vec[d+1] == ref.HAbsent { // an absent Action on the addressed command is outside C05
 				continue
@@ -73,7 +77,7 @@ func oneFlow(c *Ctx, d int, vec []int, pol int) {
 	// hook i: 0..d = Before of level i; d+1 = Action; d+2+j = After of level d-j
 	n := 2*d + 3
 	var log []string
-	vals := make([]error, n)
+	vals := make([]interface{}, n)
 	names := make([]string, n)
 	for i := 0; i <= d; i++ {
 		names[i] = fmt.Sprintf("B%d", i)
@@ -89,6 +93,13 @@ func oneFlow(c *Ctx, d int, vec []int, pol int) {
 		case ref.HPanics:
 			vals[i] = errors.New("boom-" + names[i])
 			return func() { log = append(log, names[i]); panic(vals[i]) }
+		case ref.HFaults:
+			return func() {
+				log = append(log, names[i])
+				defer func() { vals[i] = recover(); panic(vals[i]) }() // remember the exact runtime.Error, raise it again
+				var m map[string]int
+				m[names[i]] = 1
+			}
 		default:
 			return func() { log = append(log, names[i]); cli.Exit(10 + i) }
 		}
@@ -143,7 +154,7 @@ func oneFlow(c *Ctx, d int, vec []int, pol int) {
 			bad = append(bad, "end")
 		}
 	case exp.End == ref.EndPanic:
-		if !(o.Panicked && o.PanicVal == interface{}(vals[exp.By]) && len(o.Exits) == 0 && !o.Returned) {
+		if !(o.Panicked && o.PanicVal == vals[exp.By] && vals[exp.By] != nil && len(o.Exits) == 0 && !o.Returned) {
 			bad = append(bad, "end")
 		}
 	}
@@ -174,7 +185,7 @@ func describeVec(names []string, vec []int) string {
 		}
 		sb.WriteString(names[i])
 		sb.WriteByte('=')
-		sb.WriteString([]string{"absent", "returns", "panics", "exit"}[v])
+		sb.WriteString([]string{"absent", "returns", "panics", "exit", "runtime-error"}[v])
 	}
 	return sb.String()
 }
